@@ -608,6 +608,51 @@ pub fn check(ctx: &Ctx, input: &Input) -> CaseResult {
                 ));
             }
         }
+        // a function exported under several names: the same call once more
+        // retargets one more of its exports (and only that)
+        let k = da.exports.iter().filter(|e| e.kind == ExtKind::Func && e.index == target).count();
+        if k >= 2 && target >= da.imp_funcs.len() as u32 {
+            let group_sizes = |d: &crate::decode::ModuleD| -> Vec<usize> {
+                let names: Vec<&String> = da.exports.iter().filter(|e| e.kind == ExtKind::Func && e.index == target).map(|e| &e.name).collect();
+                let mut by_index: std::collections::HashMap<u32, usize> = std::collections::HashMap::new();
+                for e in d.exports.iter().filter(|e| e.kind == ExtKind::Func && names.contains(&&e.name)) {
+                    *by_index.entry(e.index).or_insert(0) += 1;
+                }
+                let mut v: Vec<usize> = by_index.values().copied().collect();
+                v.sort();
+                v
+            };
+            let mut want1 = vec![1, k - 1];
+            want1.sort();
+            if group_sizes(&db) == want1 {
+                let model3 = model.clone();
+                let pt3 = param_types.clone();
+                let r2 = guard("replace_exported_func", || {
+                    m.replace_exported_func(fid, |(body, args)| build_body(body, args, &model3, &pt3, u64::MAX, None, None, None))
+                })?;
+                if let Err(e) = r2 {
+                    return Err(Failure::new(
+                        "export-replacement:second-replacement-refused",
+                        format!("function {} is exported under {} names; after one of them was retargeted, replace_exported_func on the same function failed: {} [{}]", target, k, e, origin),
+                    ));
+                }
+                let edited2 = wal::emit(&mut m).map_err(|f| Failure::new(format!("export-replacement:second:{}", f.signature), format!("{} [{}]", f.detail, origin)))?;
+                if validate_walrus(&edited2).is_ok() {
+                    if let Ok(d2) = decode(&edited2) {
+                        let mut want2 = if k == 2 { vec![1, 1] } else { vec![1, 1, k - 2] };
+                        want2.sort();
+                        let got2 = group_sizes(&d2);
+                        if got2 != want2 {
+                            return Err(Failure::new(
+                                "export-replacement:second-replacement-retargets-wrong-exports",
+                                format!("function {} exported under {} names; after two replacements its exports group by target as {:?}, expected {:?} [{}]", target, k, got2, want2, origin),
+                            ));
+                        }
+                        out.label("second-replacement-of-a-twice-exported-function");
+                    }
+                }
+            }
+        }
     }
     Ok(out)
 }
